@@ -486,6 +486,7 @@ func (w *world) do(o op) Sx {
 		if !w.okAlloc(a) {
 			return skip
 		}
+		useDir()
 		path := w.path(a)
 		switch o.mode {
 		case "nodir":
@@ -513,6 +514,7 @@ func (w *world) do(o op) Sx {
 		if !w.okAlloc(a) {
 			return skip
 		}
+		useDir()
 		path := filepath.Join(w.dir, "in.bin")
 		os.Remove(path)
 		var presented Sx
@@ -580,10 +582,22 @@ type script struct {
 
 var caseDir string
 
+var dirUsed bool
+
+// useDir creates the scratch directory on first use by a case (most cases never touch the disk).
+func useDir() {
+	if !dirUsed {
+		if err := os.MkdirAll(caseDir, 0o700); err != nil {
+			panic(err)
+		}
+		dirUsed = true
+	}
+}
+
 func newScript() *script {
-	os.RemoveAll(caseDir)
-	if err := os.MkdirAll(caseDir, 0o700); err != nil {
-		panic(err)
+	if dirUsed {
+		os.RemoveAll(caseDir)
+		dirUsed = false
 	}
 	s := &script{w: newWorld(caseDir)}
 	s.w.changed() // the initial state of A0 is known to the model (NewAllocator); do not emit it
@@ -964,25 +978,25 @@ func main() {
 		return
 	}
 
-	if cfg.Tier == "quick" {
-		exhaustive(4)
-	} else {
+	if cfg.Tier == "thorough" {
 		exhaustive(5)
+	} else {
+		exhaustive(4) // quick, and the search after a correspondence break (which varies the seed of the random streams)
 	}
 	for shape := 0; shape <= 4; shape++ {
 		for _, rel := range []int{absZero, -1, 0, 1} {
 			for _, disk := range []bool{false, true} {
-				reps := cfg.Count(6, 40)
+				reps := cfg.Count(6, 30)
 				for k := 0; k < reps; k++ {
 					guarded("boundary", func(s *script) { genBoundary(s, shape, rel, disk) })
 				}
 			}
 		}
 	}
-	for k, n := 0, cfg.Count(1500, 20000); k < n; k++ {
+	for k, n := 0, cfg.Count(1500, 8000); k < n; k++ {
 		guarded("clone", genClone)
 	}
-	for k, n := 0, cfg.Count(3000, 40000); k < n; k++ {
+	for k, n := 0, cfg.Count(3000, 15000); k < n; k++ {
 		guarded("random", genRandom)
 	}
 }
